@@ -190,11 +190,11 @@ class Monitor(object):
       return "optional"
     if s.id in d.optional:
       return "optional"
+    if s.once and s.executing > 0:
+      return "optional"         # a one-shot handler that is running right now (nested raise)
     if s.id in d.removed:
       return "required"         # unsubscribed during this delivery: snapshot semantics
     if s.state != LIVE:
-      return "optional"
-    if s.once and s.executing > 0:
       return "optional"
     return "required"
 
